@@ -65,9 +65,11 @@ def gen_message(r, name):
         shape = r.random()
         if shape < 0.15:
             f["repeated"] = True
-        elif shape < 0.25 and not f["required"]:
+        elif shape < 0.25:
+            # presence is independent of REQUIRED: a REQUIRED field may be proto3 `optional` (synthetic oneof) ...
             f["optional"] = True
-        elif shape < 0.35 and not f["required"]:
+        elif shape < 0.35:
+            # ... or a member of a real oneof; at any position among required and non-required fields
             f["oneof"] = "choice"
         elif shape < 0.42:
             f["map"] = True
@@ -352,6 +354,26 @@ def corpus_specs():
                    _fd("filter_spec", False, "message", number=4), _fd("kind", False, "enum", number=5),
                    dict(_fd("tags", number=6), repeated=True), dict(_fd("labels", number=7), map=True),
                    _fd("class", True, "enum", number=8)]
+    # (4e) REQUIRED fields that are proto3 `optional` or members of a real oneof, declared after non-required fields and
+    #      before other required ones (presence does not matter for "required first"); local and cross-package request
+    def presence():
+        return [{"name": "GetBookRequest", "fields": [
+                    _fd("view", number=1), dict(_fd("name", True, number=2), oneof="key"), dict(_fd("isbn", number=3), oneof="key"),
+                    _fd("parent", True, number=4)]},
+                {"name": "DeleteBookRequest", "fields": [_fd("etag", number=1), dict(_fd("name", True, number=2), optional=True)]},
+                {"name": "MoveBookRequest", "fields": [
+                    dict(_fd("from", number=5), optional=True), dict(_fd("spec", True, "message", number=4), optional=True),
+                    _fd("parent", True, number=3), dict(_fd("kind", True, "enum", number=2), oneof="how"),
+                    dict(_fd("shelf", False, "message", number=1), oneof="how"), dict(_fd("force", True, "bool", number=9), optional=True)]}]
+    for tr in ("grpc", "rest", "grpc+rest"):
+        t = base(tr)
+        t["messages"] = presence()
+        t["shared"] = {"package": "acme.common", "messages": presence()}
+        t["services"] = [
+            {"name": "Library", "methods": [mk("GetBook", "GetBookRequest"), mk("DeleteBook", "DeleteBookRequest"), mk("MoveBook", "MoveBookRequest")]},
+            {"name": "Archive", "methods": [mk("GetOld", "acme.common.GetBookRequest"), mk("DeleteOld", "acme.common.DeleteBookRequest"),
+                                            mk("Move", "acme.common.MoveBookRequest")]}]
+        out.append(("required_presence_" + tr.replace("+", "_"), t))
     for tr in ("grpc", "rest", "grpc+rest"):
         t = base(tr)
         t["messages"] = [{"name": "LocalRequest", "fields": six()}]
@@ -516,6 +538,13 @@ def descriptor_fields(full_name):
                     return [(fd.name, apigen.field_behavior_pb2.REQUIRED in fd.options.Extensions[apigen.field_behavior_pb2.field_behavior], fd.number)
                             for fd in mt.field]
     raise KeyError(full_name)
+
+
+def request_field_specs(spec, m):
+    """the spec's field dicts of the request ([] for requests of the standard dependency files)"""
+    inp = m["input"]
+    pool = spec["messages"] if is_local(inp) else [dict(x, name=spec["shared"]["package"] + "." + x["name"]) for x in (spec.get("shared") or {}).get("messages", [])]
+    return next((x["fields"] for x in pool if x["name"] == inp), [])
 
 
 def request_fields(spec, m):
@@ -849,6 +878,9 @@ def run_spec(ctx, spec, label, probe=None):
                 ctx.count("request_declared_in", "target package" if is_local(m["input"]) else "google.protobuf.Empty" if m["input"] == "google.protobuf.Empty"
                           else "dependency file of another package" if not m["input"].startswith("google.") else m["input"].rsplit(".", 1)[0])
                 ctx.count("required_fields", sum(1 for _, q in input_fields(spec, m) if q))
+                for fd_ in request_field_specs(spec, m):
+                    if fd_["required"]:
+                        ctx.count("required_field_presence", "proto3 optional" if fd_.get("optional") else "member of a real oneof" if fd_.get("oneof") else "plain")
                 nums = input_numbers(spec, m)
                 fl_ = input_fields(spec, m)
                 groups = [[k for k, (_, q) in zip(nums, fl_) if q], [k for k, (_, q) in zip(nums, fl_) if not q]]
@@ -1262,7 +1294,7 @@ def _run(ctx):
                 "0..5 RPCs each (service shapes: no RPC at all, exactly one, only streaming, only internal, ordinary; the empty service "
                 "sometimes first / last / first and last by name) drawn from keyword-named (any letter case), internal (selective generation, "
                 "generate_omitted_as_internal), snake/acronym/digit-named pools; requests of 0..7 fields drawn from reserved-word and "
-                "plain pools (REQUIRED at random positions, repeated/map/optional/oneof/message/enum; field NUMBERS shuffled/gapped/reversed "
+                "plain pools (REQUIRED at random positions — also on proto3-optional fields and members of a real oneof —, repeated/map/optional/oneof/message/enum; field NUMBERS shuffled/gapped/reversed "
                 "independently of the declaration order), Empty requests, streaming and "
                 "LRO RPCs, optional Locations/IAMPolicy mixins and add-iam-methods, services spread over 1..3 proto files x transports "
                 "{grpc, rest, grpc+rest, rest+grpc}; a second stream of the same APIs as libraries WITHOUT a namespace part (proto package "
